@@ -166,7 +166,7 @@ def validate_obs(traces, jobs=8, batch=150, keep_dir=None):
 # ---------------------------------------------------------------------------------------------
 # conformance: TraceImpl (the recorded trace replayed through the actions of Bubus.tla)
 # ---------------------------------------------------------------------------------------------
-_H_OPS = {'d', 'y', 's', 'a', 'rb', 'raise', 'ret', 'g'}
+_H_OPS = {'d', 'y', 's', 'a', 'rb', 'raise', 'ret', 'g', 'logop'}
 _D_OPS = {'d', 'a', 'y', 's', 'idle', 'g'}
 
 
